@@ -160,3 +160,24 @@ Proof.
   - now apply match_all_same_set.
   - destruct (isnil (rq_source_url q)); [intro x; tauto | now apply match_all_same_set].
 Qed.
+
+(* ---- the DNS verdict, end to end ---- *)
+Theorem dns_verdict_end_to_end hash psl s scanned hostname q :
+  storage_ok s -> storage_scan s = Ok scanned -> hostname <> [] ->
+  NoDup (map (fun ri => nr_text (fst ri)) (hl_of scanned)) ->
+  let res := fst (dns_match hash psl (retr_net_of s) (retr_host_of s) (build_dns hash scanned) hostname q) in
+  verdict_of (dr_network_rule res) =
+  spec_dns_verdict (filter (fun f => rmatch psl f q) (map fst (hl_of scanned))).
+Proof.
+  intros Hok Hs Hne Hnd res. unfold res. rewrite dns_basic_rule by exact Hne. rewrite dns_verdict.
+  apply dns_verdict_same_set.
+  assert (Hnrs : dr_network_rules (fst (dns_match hash psl (retr_net_of s) (retr_host_of s) (build_dns hash scanned) hostname q))
+                 = match_all hash psl (retr_net_of s) (build_net hash (hl_of scanned)) q).
+  { unfold dns_match. destruct hostname; [congruence|]. cbn [isnil].
+    destruct (build_dns_tables hash scanned) as [_ Hn]. rewrite Hn.
+    destruct (get_dns_basic_rule _); [reflexivity|]. destruct (isnil _); reflexivity. }
+  rewrite Hnrs. apply match_all_same_set.
+  - intros f idx H. apply hl_of_in in H as [H _]. now apply (scanned_parsed s scanned f idx).
+  - intros f idx H. apply hl_of_in in H as [H _]. unfold retr_net_of. now rewrite (storage_retrieve_scanned s scanned _ idx Hok Hs H).
+  - exact Hnd.
+Qed.
